@@ -177,6 +177,8 @@ def generate(rng, index, tier):
     if settings['shares'] and rng.random() < 0.4:
         # slower executor: the start-up scan ends after the login, share counts are reported a second time
         plan['exec'] = {'delay_ms': rng.choice([[5, 40], [20, 400]])}
+    if loss_like and plan['stop_after'] is None and settings['reconnect'] and rng.random() < 0.3:
+        plan['server_down'] = {'attempts': rng.choice([1, 1, 2, 3]), 'how': rng.choice(('refuse', 'refuse', 'blackhole'))}
     if rng.random() < 0.1:
         plan['server_omit'] = [rng.choice(['room_list', 'parent_min_speed', 'parent_speed_ratio', 'wishlist_interval'])]
     return plan
@@ -254,6 +256,12 @@ def corpus(tier):
         for idx in range(0, BURST_MAX_INDEX + 1):
             for act in BURST_ACTIONS:
                 out.append(_plan(dict(RICH, timeout=1), state='burst', index=idx, trigger=trigger, action=act))
+    # 6. the server is unreachable for the first reconnect attempts after the loss, then back
+    for how in ('rst', 'reset', 'write_stall'):
+        for n, unreachable in ((1, 'refuse'), (3, 'refuse'), (1, 'blackhole')):
+            for timeout in (1, 3):
+                out.append(_plan(dict(RICH, timeout=timeout), state='steady', action={'kind': 'loss', 'how': how},
+                                 server_down={'attempts': n, 'how': unreachable}))
     # 5. stop() after a loss: while the watchdog waits, while it reconnects, after the re-login
     for how in ('rst', 'fin', 'requested'):
         for d in STOP_AFTER:
@@ -451,7 +459,15 @@ def _run(world: World, plan):
     tap = LinkTap(world)
     world.net.taps.append(tap)
 
+    down = dict(plan.get('server_down') or {})
+    down.setdefault('left', down.get('attempts', 0))
+
     def connect_hook(attempt):
+        if attempt['src'] == OWN and attempt['dst'] == 'server' and ctx['losses'] and down['left'] > 0:
+            # the server stays unreachable for the first reconnect attempts after the loss
+            down['left'] -= 1
+            world.net.fired['server_unreachable_at_reconnect'] += 1
+            return ('refuse', 0.02) if down.get('how', 'refuse') == 'refuse' else ('blackhole', None)
         if attempt['src'] != OWN or attempt['dst'] != PEER:
             return None
         if 'parent_slow' in pending:
@@ -883,6 +899,9 @@ def _run(world: World, plan):
                  'had_session': had_session}
         if expect == 'reconnect' and reconnect_on:
             deadline = t_ref + timeout + RECONNECT_SLACK
+            if down.get('attempts'):
+                # every failed attempt costs one more waiting period (plus the connect timeout when black-holed)
+                deadline += down['attempts'] * (timeout + (0.5 if down.get('how', 'refuse') == 'refuse' else 31.0))
             await wait_for(lambda: bool(logins_after(t_loss)), deadline - loop.time(), step=0.25)
             new = logins_after(t_loss)
             if not new:
